@@ -483,6 +483,8 @@ var Shapes = []func(b *B){
 			rec(depth)
 		})
 	},
+	// 10 (appended below): names chosen so that several schema names are equally
+	// close - the "Did you mean" code then has ties to order
 	// 9: nested selections, leafs, unknown fields
 	func(b *B) {
 		b.braces(func() {
@@ -496,5 +498,29 @@ var Shapes = []func(b *B){
 				})
 			}
 		})
+	},
+	// 10: misspelt names with tied suggestion candidates (Obj3: Obj/Obj2; In2: In/Int/ID/One/Un)
+	func(b *B) {
+		b.braces(func() {
+			switch b.altN("where", 3) {
+			case 0: // fragment definition on an unknown type
+				b.n("a")
+				b.p(hparse.KSpread)
+				b.n("A")
+			case 1: // unknown field with several near misses (a, s / id, i)
+				b.pick("ax", "ix", "a")
+			case 2: // unknown argument
+				b.n("o")
+				b.p(hparse.KParenL)
+				b.pick("ix", "ex", "x")
+				b.p(hparse.KColon)
+				b.lit(hparse.KInt, "1")
+				b.p(hparse.KParenR)
+				b.braces(func() { b.n("a") })
+			}
+		})
+		b.ns("fragment", "A", "on")
+		b.pick("Obj", "Obj3", "In2", "Missing")
+		b.braces(func() { b.pick("id", "ic") })
 	},
 }
